@@ -251,7 +251,8 @@ def evaluate_doc(ctx, info, cpp_line, ml_doc_line, names, stats):
             explained = explain_variant(ml, lib_ip, lib_key, None)
             if explained == "0":
                 # the library behaves as the model WITHOUT the fixes: name the fix(es) by the class of the document
-                fixes = [FIXES[t] for t, c in (("i", "fi"), ("d", "fd")) if c in classes] or ["C14-interface-none / C14-foreign-children"]
+                # fix i matters iff the model with only fix d still differs from the fully repaired one (and vice versa)
+                fixes = ([FIXES["i"]] if "d==" not in ml else []) + ([FIXES["d"]] if "i==" not in ml else [])
                 what = "permissive parse differs from the repaired model and equals the model of the pinned parser: defect repaired by " + " + ".join(fixes)
                 problems.append(("violation", what, {"class": fixes, "library_issues": lib_ip, "model_issues": mod_li}))
             elif explained in ("i", "d"):
@@ -298,16 +299,23 @@ def evaluate_doc(ctx, info, cpp_line, ml_doc_line, names, stats):
             lv = issues_cpp(vp, names)
             if lv is None or lv:
                 fails.append(("validator", "the Validator accepts the 2.0 original and not the transformed model: %s" % (sorted(set(lv)) if lv else vp)))
+        allowed = set()
+        if "groups" in classes:
+            allowed.add("E:MODEL_MORE_THAN_ONE_ENCAPSULATION")
+        if "offset" in classes:
+            allowed.add("E:UNIT_ATTRIBUTE_OPTIONAL")
         for cls, what in fails:
-            matched = None
-            if "groups" in classes and (cls == "content" or (cls == "issues" and set(strong) == {"E:MODEL_MORE_THAN_ONE_ENCAPSULATION"}) or cls == "validator"):
-                matched = "C14-several-encapsulation-groups"
-            elif "offset" in classes and cls == "issues" and set(strong) <= {"E:UNIT_ATTRIBUTE_OPTIONAL"}:
-                matched = "C14-unit-attribute-error"
-            elif "offset" in classes and "fd" in classes and cls == "issues" and explained == "0":
-                matched = "C14-unit-attribute-error"
-            if matched and ctx.known_finding(matched, what):
-                problems.append(("known:" + matched, what, {}))
+            matched = []
+            if cls == "issues" and set(strong) <= allowed:
+                matched = ["C14-several-encapsulation-groups" if x.startswith("E:MODEL_MORE") else "C14-unit-attribute-error" for x in sorted(set(strong))]
+            elif cls == "issues" and explained == "0" and "fd" in classes and \
+                    set(strong) <= allowed | {"E:XML_UNEXPECTED_ELEMENT", "E:ENCAPSULATION_CHILD", "E:COMPONENT_REF_CHILD"}:
+                matched = []          # reported above as the defect fix C14-foreign-children repairs
+                continue
+            elif cls in ("content", "validator") and "groups" in classes:
+                matched = ["C14-several-encapsulation-groups"]
+            if matched and all(ctx.known_finding(mid, what) for mid in matched):
+                problems.append(("known:" + ",".join(matched), what, {}))
             elif explained is not None and ("fi" in classes or "fd" in classes):
                 # already reported above as the defect a fix repairs
                 pass
@@ -360,7 +368,10 @@ def run_models(ctx, models, per_model, cpp, mdl, names, stats, tag):
         stats["models"] += 1
         if cf[0] != "ok" or len(cf) < 6:
             if line.startswith(("CRASH", "THROW", "TIMEOUT")):
-                items.append({"kind": kind, "script": script, "fatal": "library %s while building / printing the 2.0 original" % cf[0]})
+                items.append({"kind": kind, "script": script, "text": script,
+                              "fatal": "library %s while building / printing the 2.0 original" % cf[0]})
+            elif cf[0] == "cyclic-units":
+                stats["cyclic_units"] = stats.get("cyclic_units", 0) + 1
             else:
                 stats["nomodel"] += 1
             continue
@@ -419,7 +430,8 @@ def run_documents(ctx, items, ml_lines, cpp, mdl, names, stats, tag):
                 ex = m["EX"]
                 expressible, printable = ex[0] == "1", ex[1] == "1"
                 st = it["dinfo"]["style"]
-                in_domain = (it["valid"] or printable) and expressible
+                # (printable includes "every number survives 15 digits": a validator-accepted model outside it is C02's finding)
+                in_domain = printable and expressible
                 origin = {"d0": it["d0"], "valid": it["valid"] and expressible, "in_domain": in_domain, "ml": m}
                 if it["dinfo"] is not None and it.get("first_of_model", True):
                     pass
